@@ -13,18 +13,19 @@ ID = 'C14'
 
 MANIFEST = {
     'engine': 'symx',
-    'text': 'Bounded symbolic model checking of the real HyperLogLogWCache source on a scaled-down instance (the class keeps p, m, warmup_size and width on the instance; the harness records the real constants and re-scales them to p in {2,3}): the insertion sequence (which item at each step) and the 32-bit hash of every distinct item are symbolic; z3/the path explorer shows after every prefix that len == #distinct while #distinct <= warm-up capacity, that re-adding a seen item never changes len (before, at and after the switch to registers), that len in the exact range is order-independent, and that the registers after the switch are a function of the set inserted. The hash object is modelled as streaming (several updates hash the concatenation), hash values may collide, and a counterexample that needs a 32-bit collision is replayed with real strings whose xxh32 digests collide.',
+    'text': 'Bounded symbolic model checking of the real HyperLogLogWCache source on a scaled-down instance (the class keeps p, m, warmup_size and width on the instance; the harness records the real constants and re-scales them to p in {2,3}): the insertion sequence (which item at each step) and the 32-bit hash of every distinct item are symbolic; z3/the path explorer shows after every prefix that len == #distinct while #distinct <= warm-up capacity, that re-adding a seen item never changes len (before, at and after the switch to registers), that len in the exact range is order-independent, and that the registers after the switch are a function of the set inserted. A further condition (feed) drives the real compute_cardinalities with real pandas over solver-chosen columns and batch splits against the real class re-scaled to capacity 4 and requires the exact count after every batch. The hash object is modelled as streaming (several updates hash the concatenation), hash values may collide, and a counterexample that needs a 32-bit collision is replayed with real strings whose xxh32 digests collide.',
     'note': 'Scaled instance: same code, smaller constants (capacity 2 or 4 instead of 2^18); xxhash replaced by an arbitrary function item -> 32-bit value; the clause "within 2% up to 2^21 distinct values" is statistical (a probabilistic statement over the hash, false for adversarial multisets) and is NOT covered.',
     'technique': 'symbolic execution of the real Python source with z3 on a re-scaled instance; hash values as unconstrained 32-bit integers',
 }
 
 BOUNDS = {'quick': [(2, 4, 3), (2, 5, 3)], 'thorough': [(2, 5, 4), (2, 6, 3), (2, 6, 4)]}
 
+FEED_ROWS_ = {'quick': 5, 'thorough': 6}
 INFO = {
     'engine': 'symx + z3',
     'explanation': 'p re-scaled on the instance; item index per step concretised by solver decisions, hash values stay symbolic (register index/rank are z3 terms, registers If-merged); '
                    'len() forks on which registers are empty.',
-    'bounds': {t: [f'p={p} (capacity {(1 << p) // 2}), {s} insertions over {k} items' for p, s, k in v] for t, v in BOUNDS.items()},
+    'bounds': {t: [f'p={p} (capacity {(1 << p) // 2}), {s} insertions over {k} items' for p, s, k in v] + [f'pipeline feed: {FEED_ROWS_[t]} rows over 5 values (one empty), 1..3 consecutive mini-batches, real class re-scaled to capacity 4, real xxhash'] for t, v in BOUNDS.items()},
     'outside': ['"within 2% up to 2^21 distinct values" (statistical)', 'the real constants p=19, capacity 2^18 (recorded and asserted, then re-scaled)', '32-bit hash collisions between distinct items are allowed (hash values unconstrained)'],
     'assumptions': ['xxhash.xxh32(seed).update(bytes).intdigest() is a function of the bytes', 'numpy zeros/where/log/divide/ceil on the register array follow numpy semantics'],
     'job_timeout': {'quick': 240, 'thorough': 1500},
@@ -121,6 +122,10 @@ def load_hll():
 
 def jobs(tier):
     out = []
+    import pandas  # noqa
+    for c0 in range(len(FEED_POOL)):
+        for c1 in range(len(FEED_POOL)):
+            out.append({'cond': 'feed', 'tier': tier, 'pins': {'c0': c0, 'c1': c1}, 'weight': 30, 'label': f'pipeline feed, first cells {FEED_POOL[c0]!r},{FEED_POOL[c1]!r}'})
     for p, s, k in BOUNDS[tier]:
         for pins in hutil.product_pins([(f's{i}', range(k)) for i in range(2 if s <= 5 else 3)]):
             out.append({'cond': 'prefix-len', 'p': p, 's': s, 'k': k, 'pins': pins, 'weight': k ** (s - 1), 'label': f'p={p},s={s},k={k},{pins}'})
@@ -138,7 +143,91 @@ def scaled(HLL, p):
     return o, real
 
 
+# ---- how the pipeline feeds the sketch: real compute_cardinalities over consecutive mini-batches, real class re-scaled to capacity 4 ----
+FEED_POOL = ['', 'u', 'v', 'w', 'x']
+FEED_ROWS = {'quick': 5, 'thorough': 6}
+
+
+def feed_compositions(n, maxparts=3):
+    out = []
+
+    def rec(rest, acc):
+        if rest == 0:
+            out.append(list(acc))
+            return
+        if len(acc) == maxparts:
+            return
+        for k in range(1, rest + 1):
+            rec(rest - k, acc + [k])
+    rec(n, [])
+    return out
+
+
+def feed_problem(vals, cuts, P=3):
+    """None, or what is wrong: after every mini-batch the column's sketch must report the exact number of distinct non-empty values
+    seen so far while that number is within the (re-scaled) warm-up capacity"""
+    import pandas as pd
+    from harness import pipeline as PL
+    cr, cu, tr, ie = PL.real_modules()
+    from outrank.algorithms.sketches.counting_ultiloglog import HyperLogLogWCache as HLL
+    PL.fresh_state()
+    for g in (cr.GLOBAL_CARDINALITY_STORAGE, cr.GLOBAL_COUNTS_STORAGE):
+        g.clear()
+    o, _ = scaled(HLL, P)
+    cap = o.warmup_size
+    cr.GLOBAL_CARDINALITY_STORAGE['fa'] = o
+    pb = types.SimpleNamespace(set_description=lambda *a, **k: None)
+    pos, seen = 0, set()
+    try:
+        for k in cuts:
+            part = vals[pos:pos + k]
+            pos += k
+            cr.compute_cardinalities(pd.DataFrame({'fa': part}), pb, 30000)
+            seen |= {v for v in part if v != ''}
+            got = len(cr.GLOBAL_CARDINALITY_STORAGE['fa'])
+            if len(seen) <= cap and got != len(seen):
+                return f'after the batches {cuts[:cuts.index(k) + 1] if cuts.count(k) == 1 else "up to row " + str(pos)} the sketch (capacity {cap}) reports {got} distinct values, the column has {len(seen)}'
+    finally:
+        for g in (cr.GLOBAL_CARDINALITY_STORAGE, cr.GLOBAL_COUNTS_STORAGE):
+            g.clear()
+    return None
+
+
+def run_feed(job):
+    R = FEED_ROWS[job.get('tier', 'quick')]
+    comps = feed_compositions(R)
+    loader.record_functions('outrank/core_ranking.py', ['compute_cardinalities'])
+    loader.record_functions('outrank/algorithms/sketches/counting_ultiloglog.py', ['HyperLogLogWCache.add', 'HyperLogLogWCache.__len__', 'HyperLogLogWCache._hasher_update'])
+    st = {}
+
+    def setup(ctx):
+        st['c'] = [z3.Int(f'c{i}') for i in range(R)]
+        for v in st['c']:
+            ctx.assume(v >= 0, v < len(FEED_POOL))
+        st['comp'] = z3.Int('comp')
+        ctx.assume(st['comp'] >= 0, st['comp'] < len(comps))
+        for k, v in job['pins'].items():
+            ctx.assume(z3.Int(k) == v)
+
+    def body(ctx, out):
+        vals = [FEED_POOL[int(SInt(v, 0, len(FEED_POOL) - 1))] for v in st['c']]
+        cuts = comps[int(SInt(st['comp'], 0, len(comps) - 1))]
+        w = {'cond': 'feed', 'vals': vals, 'cuts': cuts}
+        try:
+            p = feed_problem(vals, cuts)
+        except Exception as e:
+            p = f'{type(e).__name__}: {e}'
+        if p or out.twin:
+            out.concrete_fail(w, p or 'twin')
+        else:
+            out.concrete_ok()
+        out.sample(w)
+    return hutil.run_symx(job, setup, body)
+
+
 def run_job(job):
+    if job['cond'] == 'feed':
+        return run_feed(job)
     P, S, NI = job['p'], job['s'], job['k']
     HLL = load_hll()
     ITEMS = [f'it{i}' for i in range(NI)]
@@ -215,6 +304,18 @@ def _real_collisions(seed, k):
 
 
 def replay(w):
+    if w.get('cond') == 'feed':
+        try:
+            p = feed_problem(w['vals'], w['cuts'])
+        except Exception as e:
+            p = f'{type(e).__name__}: {e}'
+        if p:
+            return {'reproduced': True, 'signature': 'C14:pipeline-feed', 'what': f'compute_cardinalities over column {w["vals"]} cut into {w["cuts"]}: {p}'}
+        return {'reproduced': False, 'what': 'exact after every batch'}
+    return _replay_seq(w)
+
+
+def _replay_seq(w):
     """real class, real xxhash: the property is about insertion sequences, so the witness sequence is replayed on a re-scaled REAL instance
     with distinct real strings (hash values are whatever xxhash gives; clauses that depend on particular hash values are replayed by search over strings)."""
     loader.use_repo_on_syspath()
